@@ -81,3 +81,61 @@ impl RefSubject {
         self.limit = limit;
     }
 }
+
+/// The action alphabet of the explicit-state searches (same table as the real-code search in
+/// checks/src/observe.rs, written down a second time here for the cross-engine guard).
+#[derive(Clone, Debug, PartialEq, Eq, Hash)]
+pub enum SubjectAct {
+    Register(u32, Vec<u8>, &'static str),
+    Deregister(u32, Vec<u8>, &'static str),
+    Changed(&'static str, u16, bool),
+    Ack(u32, u16),
+}
+
+pub fn alphabet(wide: bool) -> Vec<SubjectAct> {
+    let eps: Vec<u32> = if wide { vec![1, 2, 3] } else { vec![1, 2] };
+    let toks: Vec<Vec<u8>> = if wide { vec![vec![0xA1], vec![0xB2, 0xB3], vec![]] } else { vec![vec![0xA1], vec![0xB2, 0xB3]] };
+    let paths: Vec<&'static str> = if wide { vec!["t"] } else { vec!["t", "s/u"] };
+    let mut a = Vec::new();
+    for &e in &eps {
+        for t in &toks {
+            for &p in &paths {
+                a.push(SubjectAct::Register(e, t.clone(), p));
+                a.push(SubjectAct::Deregister(e, t.clone(), p));
+            }
+        }
+    }
+    for p in paths.iter().copied().chain(std::iter::once("zz")) {
+        for mid in [100u16, 200] {
+            for con in [true, false] {
+                a.push(SubjectAct::Changed(p, mid, con));
+            }
+        }
+    }
+    for e in eps.iter().copied().chain(std::iter::once(9)) {
+        for mid in [100u16, 200] {
+            a.push(SubjectAct::Ack(e, mid));
+        }
+    }
+    a
+}
+
+impl RefSubject {
+    pub fn apply(&mut self, a: &SubjectAct) {
+        match a {
+            SubjectAct::Register(e, t, p) => self.register(*e, t, p),
+            SubjectAct::Deregister(e, t, p) => self.deregister(*e, t, p),
+            SubjectAct::Changed(p, mid, con) => {
+                self.resource_changed(p, *mid, *con);
+            }
+            SubjectAct::Ack(e, mid) => self.acknowledge(*e, *mid),
+        }
+    }
+    /// Canonical form used for state identity: the sequence counters are dropped.
+    pub fn canonical(mut self) -> RefSubject {
+        for r in self.resources.values_mut() {
+            r.sequence = 0;
+        }
+        self
+    }
+}
